@@ -376,9 +376,23 @@ def run(chk):
     r4.require(reattach, f"{ff.key}|reattach-user-settings", ff.where(), "_final_fit must re-attach the user's settings to each fitted component (the escalated copy must not leak)")
 
     # ------------------------------------------------------------------ R14.5
-    cp = chk.repo.func("opendsm.eemeter.models.daily.model", "DailyModel._create_params_from_fit_model")
-    ok = any(isinstance(k, ast.keyword) and k.arg == "settings" and unparse(k.value).startswith("self.settings") for k in ast.walk(cp.node))
-    r5.require(ok, f"{cp.key}|settings-from-self", cp.where(), "stored daily settings must be self.settings.model_dump()")
-    ht = chk.repo.func("opendsm.eemeter.models.hourly.model", "HourlyModel.to_dict")
-    ok = any(isinstance(k, ast.keyword) and k.arg == "settings" and unparse(k.value) == "self.settings" for k in ast.walk(ht.node))
-    r5.require(ok, f"{ht.key}|settings-from-self", ht.where(), "stored hourly settings must be self.settings")
+    # read off the interpreted writers (rules/daily_roundtrip.py, rules/hourly_roundtrip.py): what is stored under `settings`
+    from rules.common import DAILY_MODEL, HOURLY_MODEL, method
+    from rules.daily_roundtrip import round_trip as daily_rt
+    dmc = chk.repo.cls(*DAILY_MODEL)
+    cp = method(chk, dmc, "_create_params_from_fit_model")
+    try:
+        o = daily_rt(chk, dmc, cp, method(chk, dmc, "from_dict"), False)
+    except Exception as e:   # an unmodelled operation: not a verdict
+        raise AnalysisError(f"{cp.key}: cannot establish what is stored as settings: {e}")
+    bad = o.get("raises") or (o.get("diffs") or {}).get("settings-written")
+    r5.require(not bad, f"{cp.key}|settings-from-self", cp.where(), f"stored daily settings must be self.settings.model_dump(): {bad}")
+    from rules.hourly_roundtrip import round_trip as hourly_rt, SCENARIOS
+    hmc = chk.repo.cls(*HOURLY_MODEL)
+    ht = method(chk, hmc, "to_dict")
+    try:
+        oh = hourly_rt(chk, ht, method(chk, hmc, "from_dict"), "STANDARDSCALER", SCENARIOS[0][0], SCENARIOS[0][1], False)
+    except Exception as e:
+        raise AnalysisError(f"{ht.key}: cannot establish what is stored as settings: {e}")
+    badh = oh.get("raises") or (oh.get("diffs") or {}).get("settings")
+    r5.require(not badh, f"{ht.key}|settings-from-self", ht.where(), f"stored hourly settings must be the model's own settings: {badh}")
